@@ -8,31 +8,38 @@ from oracle.recogniser import StubSyntaxError, parse
 from vlib.gapi import INT, generate, mk_api, mk_class, mk_function, mk_module, self_param
 from vlib.hsupport import THOROUGH, OutOfRange, fixed, judge, note, untraced
 
-SEL_LEN = 16
+SEL_LEN = 20 if THOROUGH else 16
 METHODS = ["ma", "mb"]
-N_ANC = 3 if THOROUGH else 2  # number of ancestor candidates below the public class under test
+# quick: 2 ancestor candidates below the public class under test, every variation.
+# thorough: the quick space plus 3 ancestor candidates (chains of depth 3, diamonds over three classes) with reduced
+# variation per class (deeper classes define nothing or 'ma'; property / other module only for K0 resp. never)
 
 
 def build(sel: List[int], cur: Cur):
     """Classes K0..K(n-1) then the public class 'Top' (module pkg/m). Class i may derive from lower-numbered classes
     (acyclic by construction). Ancestors are public or private (underscore name); K0 may live in module pkg/n."""
+    deep = THOROUGH and rd(sel, cur, 2) == 1
+    n_anc = 3 if deep else 2
     api = mk_api()
     n_mod = mk_module(api, "pkg/n")
     m_mod = mk_module(api, "pkg/m")
     classes, info = [], []
-    for i in range(N_ANC + 1):
-        top = i == N_ANC
+    for i in range(n_anc + 1):
+        top = i == n_anc
         private = False if top else rd(sel, cur, 2) == 1
-        in_n = (not top) and i == 0 and rd(sel, cur, 2) == 1
-        # subset of METHODS defined by this class (quick tier: Top defines nothing or only 'ma')
-        msel = rd(sel, cur, 4 if THOROUGH or not top else 2)
-        # 'ma' defined as a property instead of a method (quick tier: only varied for K0)
-        prop = rd(sel, cur, 2) == 1 if (msel & 1) and (THOROUGH or i == 0) else False
+        in_n = (not top) and i == 0 and not deep and rd(sel, cur, 2) == 1
+        # subset of METHODS defined by this class (Top defines nothing or only 'ma'; so do K1, K2 in the deep space)
+        if deep and i == 0:
+            msel = [0, 1, 3][rd(sel, cur, 3)]
+        else:
+            msel = rd(sel, cur, 2 if top or deep else 4)
+        # 'ma' defined as a property instead of a method (only varied for K0)
+        prop = rd(sel, cur, 2) == 1 if (msel & 1) and i == 0 else False
         # superclass list: ordered, length <= 2, over lower-numbered classes
         cands = [()] + [(a,) for a in range(i)] + [(a, b) for a in range(i) for b in range(i) if a != b]
         sup = cands[rd(sel, cur, len(cands))]
-        # abstract variant (quick tier: only together with a superclass list starting with K0)
-        abstract = top and (THOROUGH or (len(sup) > 0 and sup[0] == 0)) and rd(sel, cur, 2) == 1
+        # abstract variant (only together with a superclass list starting with K0)
+        abstract = top and len(sup) > 0 and sup[0] == 0 and rd(sel, cur, 2) == 1
         name = "Top" if top else (f"_K{i}" if private else f"K{i}")
         mod = n_mod if in_n else m_mod
         supers = [classes[a].id.replace("/", ".") for a in sup] + (["abc.ABC"] if abstract else [])
